@@ -100,6 +100,9 @@ LEVEL_TEXT = ("Machine-checked theorems (Coq 8.16, 83 pinned, all closed under t
               "C18_escaped_accepted (pline line, `--`, words that all find a positional: never UnknownArgument/InvalidSubcommand), "
               "C18_candidate_accepted_escaped (EVERY candidate offered behind `line -- v1..vk` is accepted; directly behind `--` a positional at the "
               "counter is needed: C18_escape_no_positional_refuted).  "
+              "Finding C18-require-equals (docs/pending/engine_require_equals_fix.diff, model follows): behind `--opt` of an option that requires `=` the "
+              "engine no longer waits for a value; C18_require_equals_before_after (before: `p --opt sub --<TAB>` offered an option of `p` although the "
+              "parser is at `sub`); item18 contains `--opt` (require_equals, minimum 0) as a complete occurrence.  "
               "C18_terminator_before_after: the unrepaired loop stood at the wrong level behind `p --opt a ; sub` / `p a ; sub` and offered an "
               "option the parser rejects as unknown, the repaired one stands where the parser does.  "
               "The model is tied to clap_complete by running the extracted model "
@@ -113,10 +116,10 @@ LEVEL_NOTE = ("Trusted: Coq kernel, extraction, OCaml driver, Rust harness, gene
               "a line that goes on at the same level behind a full bounded multi-valued positional (the two counters differ by one), flag subcommands, inferred names, the generated help subtree, escaped values that name a subcommand, last(true) positionals behind `--`); "
               "acceptance on whole lines by the REAL parser; custom/path completers not modelled.  Finding C18-value-terminator (the engine did "
               "not know Arg::value_terminator; C18_terminator_before_after, corpus accept.value-terminator.cases) is repaired by "
-              "docs/pending/engine_value_terminator_fix.diff, which model and proofs follow: until it is committed in /repo the check fails "
-              "against /repo (oracle + correspondence) and passes with VERIF_REPO=<clone with the patch>; the oracle reads terminators and "
-              "partially filled multi-valued options (option_values).  Class boundaries kept as theorems with witnesses replayed on the real crate: require_equals "
-              "(C18_require_equals_refuted: `p --opt <TAB>` offers a value the parser rejects with UnknownArgument); an option "
+              "docs/pending/engine_value_terminator_fix.diff, which model and proofs follow: so is finding C18-require-equals by "
+              "docs/pending/engine_require_equals_fix.diff (stacked on it); until both are committed in /repo the check fails "
+              "against /repo (oracle + correspondence) and passes with VERIF_REPO=<clone with the patches>; the oracle reads terminators and "
+              "partially filled multi-valued options (option_values).  Class boundaries kept as theorems with witnesses replayed on the real crate: an option "
               "without long name but with a visible alias is neither recognised by the shadow parse (C18_same_long_refuted) nor "
               "offered (C18_complete_options_alias_refuted = known finding C18-alias-without-primary); --alias=<TAB> offers no values "
               "(C18_long_alias_value_refuted).  Known finding C18-low-index-multiples (round 5, not repaired): the engine has no counterpart of the "
@@ -347,8 +350,17 @@ def scan_prefix(root, words, settings=frozenset(), note=None):
             body = w[2:]
             name, eq, _val = body.partition(b"=")
             a, by_inference = find_long_infer(level, name, infer_long)
-            if a is None or a["id"] in (b"help", b"version") or a["flags"] & {"reqeq", "positional"}:
+            if a is None or a["id"] in (b"help", b"version") or a["flags"] & {"positional"}:
                 return None
+            if "reqeq" in a["flags"] and a["max"] > 0:
+                # `require_equals`: the value must be attached with `=`; without it the option is complete when no value
+                # is required (otherwise the line is an error: NoEquals) - it never takes the next word
+                if (eq and (a["min"], a["max"]) not in ((1, 1), (0, 1))) or (not eq and a["min"] != 0) or "term" in a["flags"]:
+                    return None
+                if by_inference:
+                    note["inferred"] = "infer-long-args"
+                i += 1
+                continue
             if by_inference:
                 note["inferred"] = "infer-long-args"
             if a["max"] == 0:
@@ -1033,6 +1045,30 @@ def gen_terminators(mode):
     return out
 
 
+def gen_reqeq(mode):
+    """require_equals (finding C18-require-equals): an option that requires `=` with 0..=1 / exactly 1 / 0..=2 values, given with and
+    without `=`, long and short, followed by a value-looking word, a subcommand name, a flag or nothing x the word under the cursor"""
+    def arg(id_, *items):
+        return "(arg %s%s)" % (h(id_), "".join(" " + x for x in items))
+    out = []
+    sub = "(sub (cmd %s %s))" % (h(b"sub"), arg(b"so", "(long %s)" % h(b"so"), "(short %d)" % ord("s"), "(action settrue)"))
+    words = (b"", b"-", b"--", b"--s", b"--p", b"s", b"v", b"--opt=")
+    for lo, hi in ((0, 1), (1, 1), (0, 2)):
+        root = "(cmd %s %s %s %s %s)" % (
+            h(b"p"),
+            arg(b"pf", "(long %s)" % h(b"pf"), "(short %d)" % ord("f"), "(action settrue)"),
+            arg(b"opt", "(long %s)" % h(b"opt"), "(short %d)" % ord("o"), "(action set)", "(num %d %d)" % (lo, hi), "(flags reqeq)",
+                "(x-pv (%s v) (%s v))" % (h(b"va"), h(b"vb"))),
+            arg(b"file", "(action set)"),
+            sub)
+        for head in ([b"--opt"], [b"-o"], [b"-fo"], [b"--opt=va"], [b"-o=va"], [b"--opt="], [b"-ova"]):
+            for tail in ([], [b"va"], [b"sub"], [b"--pf"], [b"x", b"sub"], [b"sub", b"--so"]):
+                ln = head + tail
+                for w in words:
+                    out.append(case_line(mode, root, [b"prog"] + ln + [w], len(ln) + 1))
+    return out
+
+
 def gen_precedence(mode):
     out = []
     lines = [[b"run", b"a", b"build"], [b"run", b"build"], [b"a", b"run"], [b"a", b"run", b"b", b"build"],
@@ -1140,11 +1176,11 @@ def coverage(cases, tag):
 def streams(tier, rng):
     quick = tier == "quick"
     dyn_cases = gen_random(rng, 120 if quick else 1500, 3, "dyn")
-    st_cases = gen_states(rng, tier, "dyn", 2 if quick else 3, 400 if quick else 6000) + gen_precedence("dyn") + gen_argsconflict("dyn") + gen_terminators("dyn")
+    st_cases = gen_states(rng, tier, "dyn", 2 if quick else 3, 400 if quick else 6000) + gen_precedence("dyn") + gen_argsconflict("dyn") + gen_terminators("dyn") + gen_reqeq("dyn")
     acc_cases = gen_random(rng, 60 if quick else 500, 2, "dynaccept", conventional=False) \
         + gen_random(rng, 80 if quick else 700, 2, "dynaccept", conventional=True) \
         + gen_states(rng, tier, "dynaccept", 1 if quick else 2, 250 if quick else 3000) \
-        + gen_pending("dynaccept") + gen_precedence("dynaccept") + gen_argsconflict("dynaccept") + gen_terminators("dynaccept")
+        + gen_pending("dynaccept") + gen_precedence("dynaccept") + gen_argsconflict("dynaccept") + gen_terminators("dynaccept") + gen_reqeq("dynaccept")
     ord_cases = gen_order(rng, 60 if quick else 600, 3)
     return [
         Stream("dyn", dyn_cases, oracle=total_oracle, area="dynamic", project=project, nontrivial=nontrivial,
